@@ -135,6 +135,12 @@ func errClass(err error) string {
 	return b.String()
 }
 
+// c17Dst: recycled Deserialize destination (single-threaded driver).
+var (
+	c17Dst *simdjson.ParsedJson
+	c17Run int
+)
+
 func (w *W) c17Judge(st *c01State, g string, doc []byte, nd bool) {
 	cs := &ev.Case{Gen: g, Input: doc, A: int64(b2i(nd))}
 	w.Journal(cs)
@@ -168,9 +174,17 @@ func (w *W) c17Judge(st *c01State, g string, doc []byte, nd bool) {
 		var derr error
 		pan = walk.Guard(func() error {
 			blob := ser.Serialize(nil, *pj)
-			out, derr = ser.Deserialize(blob, nil)
+			// every other result lands in the destination the previous document (of another size,
+			// other string lengths) was deserialized into
+			out, derr = ser.Deserialize(blob, c17Dst)
 			return nil
 		})
+		// (kept for runs of seven documents: lengths go up and down below the capacity)
+		if c17Run++; c17Run%8 != 0 && derr == nil && pan == nil {
+			c17Dst = out
+		} else {
+			c17Dst = nil
+		}
 		if pan != nil || derr != nil {
 			w.Count("serialize_roundtrip_failed_(C11)", 1)
 		} else {
@@ -192,7 +206,7 @@ func (w *W) c17Judge(st *c01State, g string, doc []byte, nd bool) {
 		w.c17Check(g, "edited", cl, tapecheck.Options{AllowNop: true}, cs, cfg)
 		pan = walk.Guard(func() error {
 			blob := ser.Serialize(nil, *cl)
-			out, derr = ser.Deserialize(blob, nil)
+			out, derr = ser.Deserialize(blob, c17Dst)
 			return nil
 		})
 		if pan != nil || derr != nil {
